@@ -167,4 +167,20 @@ example : ({ recon := false } : Kw).recon = false ∧ 2 ≤ C4_exL.length ∧ (0
     ∀ s ∈ C4_exL, s.ts = 0 ∧ s.te = 6 ∧ StrictSorted s.spikes :=
   ⟨rfl, by decide, by norm_num, C4_exL_ok⟩
 
+
+/-- FINDING F14 (kernel-decided witness): when several trains spike at the same instant with
+    DIFFERENT coincidence counts, the multivariate profile shows the pooled fraction of all of
+    them, not the fraction of each spike. Here the profile at t = 5 shows 3/4 > 3/5, spike 5 of
+    train 0 (fraction 2/2) is kept, spike 5 of train 1 (fraction 1/2) is removed — the filter
+    follows the per-spike fraction (`keep_iff`), the gloss "the value the profile shows for that
+    spike" of the property does not hold at this shared time. (`hother` above excludes exactly
+    this situation; `WaveF.kept_iff_profile_above_equal_counts` is the general true statement.) -/
+theorem F14_profile_shows_pooled_fraction_at_shared_times :
+    let L : List Train := [⟨[5], 0, 10⟩, ⟨[4, 5], 0, 10⟩, ⟨[29 / 5], 0, 10⟩]
+    let kw : Kw := { recon := false }
+    (syncProfileMulti kw none L).at 5 = (3, 4) ∧
+    (filterBySync kw (3 / 5) L).1.map (·.spikes) = [[5], [], []] ∧
+    (filterBySync kw (3 / 5) L).2.map (·.spikes) = [[], [4, 5], [29 / 5]] := by
+  decide +kernel
+
 end PySpike.C17
